@@ -520,6 +520,11 @@ def boundary_cases(NNSP):
 
 # ------------------------------------------------------------------ run
 def run(ctx):
+    # detector objects are independent of one another (a consequence of "the outputs are a function of the detector's own
+    # parameters and history"): solo trace = trace when a second object of the class is updated alternately (impl/zoo.py)
+    from impl import zoo as _zoo
+    for _f in _zoo.isolation_failures(ctx, ['NNDVI']):
+        ctx.fail(signature={"clause": "detector-objects-independent"}, **_f)
     from menelaus.partitioners import NNSpacePartitioner as NNSP
     from menelaus.data_drift import NNDVI
     from scipy.stats import norm
